@@ -250,7 +250,7 @@ func checkC14(P *Program, r *Result, tier string) {
 				continue
 			}
 			for i := 0; i < st.NumFields(); i++ {
-				f := st.Field(i).Name()
+				f := canonFieldName(obj.Type(), i)
 				if why, keep := c14PoolKeep[tname+"."+f]; keep {
 					r.add("POOL-RESET", shortName(fn), "field", tname+"."+f+" survives the pool by design: "+why, P.pos(instrPos(put)), true, "listed exception")
 					continue
